@@ -80,6 +80,10 @@ impl Property for C01 {
             // the thorough tier also explores larger messages
             cfg.max_terms = 24;
         }
+        if k % 40 == 7 {
+            // occasionally a long message (a defect that needs many terms to show)
+            cfg.max_terms = 64;
+        }
         let variant = rng.below(5);
         let f = gen_function_variant(rng, &cfg, variant);
         let vname = variant_name(&f);
